@@ -202,12 +202,16 @@ CHECKS["C05"] = {
                    "oracles. distribution half: generated activation orders and delivery plans between real replicas, completeness oracle at quiescence"),
     "level_note": "trusts NaCl box and the Ed25519->X25519 conversion; 'members are active' is modelled as 'group context activated and not closed'",
     "technique": "property-based testing (rapid): round-trip + negative catalogue + by-effect oracle; generated delivery plans for the distribution half",
-    "rule": ("crypto: case = one triple with all its negatives; every case compares recipient vs non-recipients (non-trivial by construction); distinct = (kind, window, counter, j, n)"),
+    "rule": ("crypto: case = one triple with all its negatives; every case compares recipient vs non-recipients (non-trivial by construction); distinct = (kind, window, counter, j, n). "
+             "distribution: case = one group (2-3 members x 1-2 devices, or contact / account group) with a generated activation order and sync plan; non-trivial = some device activates "
+             "before it has seen any other member, or a second device of a member joins after secrets to that member were sent; distinct = (kind, plan)"),
     "assumptions": ["the sender's stored counter may be any value below 2^41 (set directly to reach varint boundaries cheaply)"],
     "units": [
         {"pkg": _SS, "run": "^TestVerif_C05_", Q: {"timeout": 600}, T: {"timeout": 3400, "shards": 12}},
+        {"pkg": ".", "run": "^TestVerif_C05_", "shrinktime": "10s", Q: {"timeout": 900}, T: {"timeout": 3400, "shards": 12}},
     ],
-    "mandatory_labels": {"all": ["crypto/kind=account", "crypto/kind=contact", "crypto/kind=multimember", "crypto/counter>=128", "crypto/messages-before-announcement"]},
+    "mandatory_labels": {"all": ["crypto/kind=account", "crypto/kind=contact", "crypto/kind=multimember", "crypto/counter>=128", "crypto/messages-before-announcement",
+                                 "distribution/multimember", "distribution/activated-before-seeing-anyone", "distribution/second-device-after-secrets"]},
 }
 
 CHECKS["C04"] = {
